@@ -18,9 +18,10 @@ for ml in (20, 32, 64):
                         backend="portfolio", extra=["--no-standard-checks"], ndebug=True, timeout=600,
                         tier="thorough", required=False,
                         fn=["botpDT", "decFromU32"], note="attempted: 32-bit remainder chains; measured no answer in 200 s on SAT, cvc5, z3"))
-    GROUPS.append(G("botp_dt.mac%d.search" % ml, "harness/C03/counters.c", "h_botp_dt", CORE, defs=["MACLEN=%d" % ml, "DIGIT=%d" % (4 + ml % 6)],
-                    level="N", backend="native", search=1000000, fn=["botpDT", "decFromU32"],
-                    note="native search stand-in for the dynamic-truncation value; NOT proof"))
+    for dg in (4, 5, 6, 7, 8, 9):
+        GROUPS.append(G("botp_dt.mac%d.d%d.search" % (ml, dg), "harness/C03/counters.c", "h_botp_dt", CORE, defs=["MACLEN=%d" % ml, "DIGIT=%d" % dg],
+                        level="N", backend="native", search=200000, fn=["botpDT", "decFromU32"],
+                        note="native search stand-in for the dynamic-truncation value; NOT proof"))
     GROUPS.append(G("botp_dt.mac%d.safety" % ml, "harness/C03/counters.c", "h_botp_dt", CORE, defs=["MACLEN=%d" % ml, "DIGIT=9", "NOVALUE"],
                     level="Pc", unwind=70, spec_unwind=70, native=False, fn=["botpDT", "decFromU32"],
                     note="memory safety and termination of botpDT for all MAC values (exact-size otp and mac objects)"))
@@ -46,6 +47,15 @@ BR = ["src/crypto/brng.c", "src/crypto/belt/belt_hash.c", "src/crypto/belt/belt_
 GROUPS.append(G("brng_ctr.search", "harness/C03/brng.c", "h_brng_ctr", BR, level="N", backend="native", search=40000,
                 fn=["brngCTRStart", "brngCTRStepR", "brngCTRStepG", "brngCTRRand"],
                 note="native: brng-ctr against its recurrence over the library's own beltHash, IVs wrapping a word / all 256 bits; NOT proof"))
+BASHSRC = ["src/crypto/bash/bash_f.c", "src/crypto/bash/bash_hash.c", "src/crypto/bash/bash_prg.c", "src/core/mem.c", "src/core/blob.c", "src/core/util.c", "src/core/u64.c"]
+GROUPS += [
+    G("bash_hash.spec.search", "harness/C03/bash_spec.c", "h_bash_hash_spec", BASHSRC, level="N", backend="native", search=60000,
+      fn=["bashHashStart", "bashHashStepH", "bashHashStepG", "bashHashStepV", "bashHash"],
+      note="all 16 levels x lengths 0..420 (block boundaries weighted) x three fragments against an octet-wise sponge reference over bashF; NOT proof"),
+    G("bash_prg.spec.search", "harness/C03/bash_spec.c", "h_bash_prg_spec", BASHSRC, level="N", backend="native", search=60000,
+      fn=["bashPrgStart", "bashPrgRestart", "bashPrgAbsorbStep", "bashPrgSqueezeStep", "bashPrgEncrStep", "bashPrgDecrStep", "bashPrgRatchet"],
+      note="command histories (start, restart with/without key, absorb, squeeze, encr, decr, ratchet; two-fragment steps) against an octet-wise reference automaton over bashF; NOT proof"),
+]
 TRUSTED = []
 ASSUMPTIONS = ["little-endian target"]
 NOT_COVERED = ["bash_f32.c and the SSE2/AVX2/AVX-512/NEON variants of bash-f", "bash hash / prg buffering and padding",
